@@ -459,6 +459,67 @@ def exported_functions():
     return defs
 
 
+def _clib_syms(node):
+    return [n.attr for n in ast.walk(node) if isinstance(n, ast.Attribute) and pyfront._name(n.value) == 'clibrebound'
+            and isinstance(n.value, (ast.Name, ast.Attribute))]
+
+
+def check_named_symbols(ctx, db, defs):
+    """R18.6n: a string option name selects the C function whose name ends with that word.
+    Idioms: if/elif chains comparing the argument with string literals; dict literals {name: clibrebound.f}."""
+    n = 0
+    samples = []
+    for rel, tree in db.files.items():
+        if '/tests/' in rel:
+            continue
+        groups = []   # list of [(literal, [symbols], lineno)]
+        for node in ast.walk(tree):
+            if isinstance(node, ast.Dict) and node.keys and all(isinstance(k, ast.Constant) and isinstance(k.value, str) for k in node.keys):
+                g = [(k.value, _clib_syms(v), k.lineno) for k, v in zip(node.keys, node.values)]
+                if any(sy for _, sy, _ in g):
+                    groups.append(g)
+            if isinstance(node, ast.If):
+                # head of a chain only
+                chain = []
+                cur = node
+                while isinstance(cur, ast.If):
+                    t = cur.test
+                    lit = None
+                    if isinstance(t, ast.Compare) and len(t.ops) == 1 and isinstance(t.ops[0], ast.Eq) \
+                            and isinstance(t.comparators[0], ast.Constant) and isinstance(t.comparators[0].value, str):
+                        lit = t.comparators[0].value
+                    if lit is not None:
+                        syms = []
+                        for b in cur.body:
+                            syms.extend(_clib_syms(b))
+                        chain.append((lit, syms, cur.lineno))
+                    if len(cur.orelse) == 1 and isinstance(cur.orelse[0], ast.If):
+                        cur = cur.orelse[0]
+                    else:
+                        break
+                if chain and any(sy for _, sy, _ in chain):
+                    groups.append(chain)
+        seen = set()
+        for g in groups:
+            lits = [l for l, _, _ in g]
+            for lit, syms, line in g:
+                if (lit, line) in seen:
+                    continue
+                seen.add((lit, line))
+                named = [sy for sy in syms if any(sy.lower().endswith('_' + l2.lower()) for l2 in lits)]
+                if not named:
+                    continue
+                n += 1
+                own = [sy for sy in named if sy.lower().endswith('_' + lit.lower())]
+                other = [sy for sy in named if not sy.lower().endswith('_' + lit.lower())]
+                if other:
+                    ctx.report('R18.6', 'named:%s:%s' % (rel.split('/')[-1], lit), '%s:%d' % (rel, line),
+                               'option name %r selects clibrebound.%s, which is the function of another option of the same table' % (lit, other[0]))
+                elif len(samples) < 6:
+                    samples.append('%s: %r -> %s' % (rel, lit, own[0]))
+    ctx.covered('R18.6n', 'string option name -> library function whose name ends with that word (if/elif chains and dict literals)', n, floor=9, samples=samples)
+
+
 def check_symbols(ctx, db):
     defs = exported_functions()
     globs = set()
@@ -514,7 +575,8 @@ def check_symbols(ctx, db):
                     if len(ps) != len(cs) or any(not scalar_kind_compatible(a, b) for a, b in zip(ps, cs)):
                         ctx.report('R18.6', 'cast:' + fname, '%s:%d' % (rel, node.lineno),
                                    'clibrebound.%s is cast to a CFUNCTYPE with signature %s but its C prototype is %s' % (fname, ps, cs))
-    ctx.covered('R18.6c', 'named function options: cast(clibrebound.f, CFUNCTYPE) agrees with the prototype of f', ncast, floor=7)
+    ctx.covered('R18.6c', 'named function options: cast(clibrebound.f, CFUNCTYPE) agrees with the prototype of f', ncast, floor=1)
+    check_named_symbols(ctx, db, defs)
 
     # R18.7 restype discipline: functions whose C return type is not int-like need a restype of matching kind
     nres = 0
